@@ -1,23 +1,52 @@
 /-
   C15 — t-out-of-N threshold secret sharing (`multiparty/threshold.go`).
 
-  All theorems are about the executable model `Lattigo.Model.Shamir` that the driver runs
-  (`thresholdRun`, `genAdditiveShare`, `newCombiner`, `genShamirSecretShare`, `aggregateAll`), for
-  all ring degrees, numbers of moduli, thresholds and party counts.
+  STATUS (all theorems for all ring degrees, numbers of moduli, thresholds, party counts, points;
+  none partial).  Files: this one (model level), `C15Words.lean` (word level, mine),
+  `C15Gen.lean` (regenerated RNS-scalar code, colleague's).
 
-  The reconstruction proof forces the hypothesis "the active public points are pairwise distinct
-  MODULO EVERY PRIME of Q and P" (`DistinctMod`).  Non-zero-ness is *not* needed for reconstruction
-  (it matters for secrecy only: `zero_point_share_is_secret`, an observation outside C15).
-  The Go API takes arbitrary `uint64` points.  Before fix 98b63bb (`multiparty/threshold.go`) points
-  such as `x` and `x + q_0` made the real code silently reconstruct a wrong key (harness probe
-  `reconstruct_collide`, finding `C15-collision-mod-prime`).  Since the fix `GenAdditiveShare`
-  returns an error for such points; the model follows the fixed code (`pointsCollide` checked before
-  the table lookup, in list order), `collision_rejected` / `collision_never_ok` state the refusal
-  and `reconstruct_or_reject` covers arbitrary pairwise different raw points: the run either
-  returns the error or the ring sum of the secrets — never a wrong key.
+  Clause "every set of exactly t active parties, in any order of listing, derives additive shares that
+  sum to the ideal secret key; the outcome does not depend on which t parties take part":
+    `reconstruct`, `reconstruct_single`         model level, whole `QP` values (all RNS rows, all slots)
+    `reconstruct_or_reject`, `run_refused_iff_collision`   arbitrary raw points: refused XOR correct
+    `reconstruct_words` (C15Words)              the same identity for the word pipeline built from the
+                                                regenerated code (Montgomery-form lazy Lagrange words of
+                                                `lagrangeCoeff_gen`, `MRedLazy` loop, `MRed`, `CRed` adds)
+    `share/aggregate/additive/run_entry_words`  every word the model outputs = that word computation
+  Clause "fewer than t active parties is refused with an error": `too_few_err`, `err_only_if`.
+  Clause "order of listing the parties": `order_indep`, `order_indep_first_t`, `order_indep_ok`.
+  Clause "order of listing the setup shares": `setup_aggregation_order_indep`.
+  Collision contract (fix 98b63bb): `collision_rejected`, `collision_never_ok`,
+    `refused_iff_collision`, `accepted_iff_distinct` (one call), `run_refused_iff_collision` (run).
+  History / receiver independence: `share_receiver_independent`, `evalPolyScalar_receiver_independent`
+    (the model with the receiver's previous content explicit, `p2.Copy(p1[last])` kept as a step;
+    tied by driver op `share_into` on dirty receivers).
+
+  Hypotheses and why they are there.  The reconstruction proof forces "the active public points are
+  pairwise distinct MODULO EVERY PRIME of Q and P" (`DistinctMod`); non-zero-ness is *not* needed
+  for reconstruction (it matters for secrecy only: `zero_point_share_is_secret`, an observation
+  outside C15's statement).  The Go API takes arbitrary `uint64` points.  Before fix 98b63bb points
+  such as `x` and `x + q_0` made the real code silently reconstruct a wrong key (probe
+  `reconstruct_collide`, finding `C15-collision-mod-prime`); since the fix `GenAdditiveShare` returns
+  an error, the model follows the fixed code (`pointsCollide` checked before the table lookup, in
+  list order) and `reconstruct_or_reject` needs raw distinctness only.  `order_indep_first_t` needs
+  "the listed points are in the combiner's table": a collision gives `err`, a table miss `panic`,
+  whichever comes first in the list.
+
+  Tied only (correspondence, no general theorem): the struct/slice/map behaviour of
+  `multiparty/threshold.go` (which word function is applied to which slice element; nil map entry,
+  negative threshold ⇒ panic; `AggregateShares` level check); `GenShamirPolynomial`'s use of the
+  sampler (C17).  Probed only: receiver/aliasing behaviour of `AggregateShares`, `GenAdditiveShare`
+  (`dirty_*` probes) — in the model these functions have no receiver argument because every word of
+  the Go receiver is overwritten; secrecy ("fewer than t cannot reconstruct") is not stated by C15's
+  text and not modelled.  Not done: a statement over the commutative ring `WFPoly qs n` — the
+  threshold code never multiplies two polynomials, `reconstruct` already is the statement on whole
+  RNS values (`QP` = all rows), so the `WFPoly` form would add the carrier identification only.
 -/
 import Lattigo.Proofs.ShamirOrder
+import Lattigo.Proofs.ShamirRecv
 import Lattigo.Props.C15Gen
+import Lattigo.Props.C15Words
 import Mathlib.Tactic.NormNum.Prime
 
 namespace Lattigo.Props.C15
@@ -149,6 +178,56 @@ theorem reconstruct_single (r : RingQP) (N t : ℕ) (secret : QP) (rest : List Q
   rw [Outcome.ok.injEq, QP.mk.injEq]
   exact ⟨hso.1.trans hs.1.symm, hrows⟩
 
+/-- with pairwise different raw points, two active points congruent modulo a prime make the run
+return the error (the party holding one of them refuses). -/
+theorem run_refused_of_collision (r : RingQP) (N t : ℕ) (dealers : List ShamirPoly) (parties : List Party)
+    (ht : 1 ≤ t)
+    (hd : ∀ sp ∈ dealers, sp.length = t ∧ ∀ c ∈ sp, ShapedQP r N c)
+    (hraw : (parties.map (·.own)).Nodup)
+    (hcount : parties.length = t)
+    (hact : ∀ p ∈ parties, (p.actives.take t).Perm (parties.map (·.own)))
+    (hoth : ∀ p ∈ parties, ∀ x ∈ parties.map (·.own), x ≠ p.own → x ∈ p.others)
+    (hdist : ¬ ∀ q ∈ r.ms, DistinctMod q (parties.map (·.own))) :
+    thresholdRun r t (zeroQP r N) dealers parties = .err := by
+  have hd' : ∀ sp ∈ dealers, sp ≠ [] ∧ ∀ c ∈ sp, ShapedQP r N c := by
+    intro sp hsp
+    refine ⟨?_, (hd sp hsp).2⟩
+    intro h
+    have := (hd sp hsp).1
+    rw [h] at this
+    simp at this
+    omega
+  have hp' : ∀ p ∈ parties, t ≤ p.actives.length ∧ ∀ a ∈ p.actives.take t, a ≠ p.own → a ∈ p.others := by
+    intro p hp
+    have hl := (hact p hp).length_eq
+    rw [List.length_take, List.length_map, hcount] at hl
+    refine ⟨by omega, ?_⟩
+    intro a ha hne
+    exact hoth p hp a ((hact p hp).mem_iff.mp ha) hne
+  apply run_err r N t dealers parties hd' hp'
+  -- a modulus and two different active points with equal residues
+  have hex : ∃ q ∈ r.ms, ¬ DistinctMod q (parties.map (·.own)) := by
+    by_contra hcon
+    exact hdist (fun q hq => by
+      by_contra hnd
+      exact hcon ⟨q, hq, hnd⟩)
+  obtain ⟨q, hq, hnd⟩ := hex
+  unfold DistinctMod at hnd
+  rw [List.nodup_map_iff_inj_on hraw] at hnd
+  have hxy : ∃ x ∈ parties.map (·.own), ∃ y ∈ parties.map (·.own), x % q = y % q ∧ x ≠ y := by
+    by_contra hcon
+    apply hnd
+    intro x hx y hy hxy
+    by_contra hne
+    exact hcon ⟨x, hx, y, hy, hxy, hne⟩
+  obtain ⟨x, hx, y, hy, hmod, hne⟩ := hxy
+  rw [List.mem_map] at hx
+  obtain ⟨p, hp, rfl⟩ := hx
+  refine ⟨p, hp, y, (hact p hp).mem_iff.mpr hy, Ne.symm hne, ?_⟩
+  unfold pointsCollide
+  rw [List.any_eq_true]
+  exact ⟨q, hq, by simpa using hmod⟩
+
 /-- **reconstruct_or_reject** (after fix 98b63bb).  Same setting as `reconstruct`, but the active
 public points are only assumed pairwise different as `uint64`s.  Then the run either returns the
 error (some pair of active points is congruent modulo one of the primes, and the party concerned
@@ -165,45 +244,50 @@ theorem reconstruct_or_reject (r : RingQP) (N t : ℕ) (dealers : List ShamirPol
       aggregateAll r (zeroQP r N) (dealers.map fun sp => sp.headD (zeroQP r N)) := by
   by_cases hdist : ∀ q ∈ r.ms, DistinctMod q (parties.map (·.own))
   · exact Or.inr (reconstruct r N t dealers parties hprime ht hd hdist hcount hact hoth)
-  · left
-    have hd' : ∀ sp ∈ dealers, sp ≠ [] ∧ ∀ c ∈ sp, ShapedQP r N c := by
-      intro sp hsp
-      refine ⟨?_, (hd sp hsp).2⟩
-      intro h
-      have := (hd sp hsp).1
-      rw [h] at this
-      simp at this
-      omega
-    have hp' : ∀ p ∈ parties, t ≤ p.actives.length ∧ ∀ a ∈ p.actives.take t, a ≠ p.own → a ∈ p.others := by
-      intro p hp
-      have hl := (hact p hp).length_eq
-      rw [List.length_take, List.length_map, hcount] at hl
-      refine ⟨by omega, ?_⟩
-      intro a ha hne
-      exact hoth p hp a ((hact p hp).mem_iff.mp ha) hne
-    apply run_err r N t dealers parties hd' hp'
-    -- a modulus and two different active points with equal residues
-    have hex : ∃ q ∈ r.ms, ¬ DistinctMod q (parties.map (·.own)) := by
-      by_contra hcon
-      exact hdist (fun q hq => by
-        by_contra hnd
-        exact hcon ⟨q, hq, hnd⟩)
-    obtain ⟨q, hq, hnd⟩ := hex
-    unfold DistinctMod at hnd
-    rw [List.nodup_map_iff_inj_on hraw] at hnd
-    have hxy : ∃ x ∈ parties.map (·.own), ∃ y ∈ parties.map (·.own), x % q = y % q ∧ x ≠ y := by
-      by_contra hcon
-      apply hnd
-      intro x hx y hy hxy
-      by_contra hne
-      exact hcon ⟨x, hx, y, hy, hxy, hne⟩
-    obtain ⟨x, hx, y, hy, hmod, hne⟩ := hxy
-    rw [List.mem_map] at hx
-    obtain ⟨p, hp, rfl⟩ := hx
-    refine ⟨p, hp, y, (hact p hp).mem_iff.mpr hy, Ne.symm hne, ?_⟩
-    unfold pointsCollide
-    rw [List.any_eq_true]
-    exact ⟨q, hq, by simpa using hmod⟩
+  · exact Or.inl (run_refused_of_collision r N t dealers parties ht hd hraw hcount hact hoth hdist)
+
+/-- **the refusal contract of the run, as an iff**: with pairwise different raw points the run is
+refused exactly when two active points are congruent modulo one of the primes; otherwise (and only
+then) it returns the ring sum of the secrets. -/
+theorem run_refused_iff_collision (r : RingQP) (N t : ℕ) (dealers : List ShamirPoly) (parties : List Party)
+    (hprime : ∀ q ∈ r.ms, q.Prime) (ht : 1 ≤ t)
+    (hd : ∀ sp ∈ dealers, sp.length = t ∧ ∀ c ∈ sp, ShapedQP r N c)
+    (hraw : (parties.map (·.own)).Nodup)
+    (hcount : parties.length = t)
+    (hact : ∀ p ∈ parties, (p.actives.take t).Perm (parties.map (·.own)))
+    (hoth : ∀ p ∈ parties, ∀ x ∈ parties.map (·.own), x ≠ p.own → x ∈ p.others) :
+    (thresholdRun r t (zeroQP r N) dealers parties = .err ↔
+      ¬ ∀ q ∈ r.ms, DistinctMod q (parties.map (·.own))) ∧
+    ((∃ s, thresholdRun r t (zeroQP r N) dealers parties = .ok s) ↔
+      ∀ q ∈ r.ms, DistinctMod q (parties.map (·.own))) := by
+  have hok : (∀ q ∈ r.ms, DistinctMod q (parties.map (·.own))) →
+      ∃ s, thresholdRun r t (zeroQP r N) dealers parties = .ok s := by
+    intro hdist
+    rw [reconstruct r N t dealers parties hprime ht hd hdist hcount hact hoth]
+    obtain ⟨out, ho, _⟩ := aggregateAll_spec r N (dealers.map fun sp => sp.headD (zeroQP r N))
+      (zeroQP r N) (shapedQP_zero r N)
+      (by
+        intro s hs
+        rw [List.mem_map] at hs
+        obtain ⟨sp, hsp, rfl⟩ := hs
+        cases sp with
+        | nil => have := (hd [] hsp).1; simp at this; omega
+        | cons c rest => exact (hd _ hsp).2 c List.mem_cons_self)
+    exact ⟨out, ho⟩
+  have herr := run_refused_of_collision r N t dealers parties ht hd hraw hcount hact hoth
+  constructor
+  · constructor
+    · intro he hdist
+      obtain ⟨s, hs⟩ := hok hdist
+      rw [he] at hs
+      exact absurd hs (by simp)
+    · exact herr
+  · constructor
+    · rintro ⟨s, hs⟩
+      by_contra hnd
+      rw [herr hnd] at hs
+      exact absurd hs (by simp)
+    · exact hok
 
 /-! ## order independence -/
 
@@ -330,6 +414,55 @@ theorem collision_never_ok (cmb : Combiner) (actives : List ℕ) (own : ℕ) (sh
         rw [List.any_eq_true]
         exact ⟨q, hq, by simpa using hcol.symm⟩
 
+/-- `pointsCollide` decides congruence modulo some modulus. -/
+theorem pointsCollide_iff (ms : List ℕ) (a b : ℕ) :
+    pointsCollide ms a b = true ↔ ∃ q ∈ ms, a % q = b % q := by
+  unfold pointsCollide
+  rw [List.any_eq_true]
+  constructor
+  · rintro ⟨q, hq, h⟩; exact ⟨q, hq, by simpa using h⟩
+  · rintro ⟨q, hq, h⟩; exact ⟨q, hq, by simpa using h⟩
+
+/-- **the collision-refusal contract of one call, as an iff** (combiner from `NewCombiner` that knows
+the first `t` active points, at least `t` of them listed): the call is refused with the error exactly
+when one of those points differs from `own` as a `uint64` but is congruent to it modulo some modulus
+of the ring … -/
+theorem refused_iff_collision (r : RingQP) (t : ℕ) (own : ℕ) (others actives : List ℕ) (share : QP)
+    (hlen : t ≤ actives.length) (hmem : ∀ a ∈ actives.take t, a ≠ own → a ∈ others) :
+    genAdditiveShare (newCombiner r own others t) actives own share = .err ↔
+      ∃ a ∈ actives.take t, a ≠ own ∧ ∃ q ∈ r.ms, a % q = own % q := by
+  constructor
+  · intro h
+    rcases err_only_if _ _ _ _ h with h1 | ⟨a, ha, hne, hc⟩
+    · exfalso
+      have : (newCombiner r own others t).threshold = (t : Int) := rfl
+      rw [this] at h1
+      omega
+    · have ht : (newCombiner r own others (t : Int)).threshold.toNat = t := by simp [newCombiner]
+      rw [ht] at ha
+      obtain ⟨q, hq, hmod⟩ := (pointsCollide_iff _ _ _).mp hc
+      exact ⟨a, ha, hne, q, hq, hmod.symm⟩
+  · rintro ⟨a, ha, hne, q, hq, hmod⟩
+    exact collision_rejected r t own others actives share hmem a q ha hne hq hmod
+
+/-- … and it is served (returns an additive share) exactly when every one of them that differs from
+`own` is distinct from it modulo every modulus. -/
+theorem accepted_iff_distinct (r : RingQP) (t : ℕ) (own : ℕ) (others actives : List ℕ) (share : QP)
+    (hlen : t ≤ actives.length) (hmem : ∀ a ∈ actives.take t, a ≠ own → a ∈ others) :
+    (∃ s, genAdditiveShare (newCombiner r own others t) actives own share = .ok s) ↔
+      ∀ a ∈ actives.take t, a ≠ own → ∀ q ∈ r.ms, a % q ≠ own % q := by
+  constructor
+  · rintro ⟨s, hs⟩ a ha hne q hq hmod
+    have := (refused_iff_collision r t own others actives share hlen hmem).mpr ⟨a, ha, hne, q, hq, hmod⟩
+    rw [this] at hs
+    exact absurd hs (by simp)
+  · intro h
+    refine ⟨_, genAdditiveShare_ok r t own others actives share hlen hmem ?_⟩
+    intro a ha hne
+    by_contra hc
+    obtain ⟨q, hq, hmod⟩ := (pointsCollide_iff _ _ _).mp (by simpa using hc)
+    exact h a ha hne q hq hmod.symm
+
 /-! ## setup aggregation -/
 
 /-- **setup_aggregation_order_indep**: a party that aggregates the Shamir shares it received in any
@@ -338,6 +471,35 @@ theorem setup_aggregation_order_indep (r : RingQP) (N : ℕ) (l₁ l₂ : List Q
     (hl : ∀ s ∈ l₁, ShapedQP r N s) :
     aggregateAll r (zeroQP r N) l₁ = aggregateAll r (zeroQP r N) l₂ :=
   aggregateAll_perm r N (zeroQP r N) (shapedQP_zero r N) h hl
+
+/-! ## receiver independence -/
+
+/-- **receiver independence of `ring.EvalPolyScalar`**: with the receiver's previous content made an
+explicit argument (`evalPolyScalarInto`: `p2.Copy(p1[last])`, then the in-place Horner steps), the
+result is the same for any two receivers of the coefficients' shape — and is the receiver-free
+`evalPolyScalarRows` that all other theorems are about. -/
+theorem evalPolyScalar_receiver_independent {nr N : ℕ} (ms : List ℕ) (x : ℕ) (polys : List Rows)
+    (hsh : ∀ p ∈ polys, Shaped nr N p) (recv₁ recv₂ : Rows) (h₁ : Shaped nr N recv₁) (h₂ : Shaped nr N recv₂) :
+    evalPolyScalarInto ms x polys recv₁ = evalPolyScalarInto ms x polys recv₂ ∧
+    evalPolyScalarInto ms x polys recv₁ = evalPolyScalarRows ms x polys :=
+  ⟨by rw [evalPolyScalarInto_eq ms x polys hsh recv₁ h₁, evalPolyScalarInto_eq ms x polys hsh recv₂ h₂],
+   evalPolyScalarInto_eq ms x polys hsh recv₁ h₁⟩
+
+/-- **receiver independence of `GenShamirSecretShare`**: the share written into a buffer that still
+holds anything of the ring's shape (a previous recipient's share, junk) is the share written into a
+fresh buffer; in particular a dealer may re-use one buffer for all recipients. -/
+theorem share_receiver_independent (r : RingQP) (N x : ℕ) (sp : ShamirPoly)
+    (hsh : ∀ c ∈ sp, ShapedQP r N c) (recv₁ recv₂ : QP) (h₁ : ShapedQP r N recv₁) (h₂ : ShapedQP r N recv₂) :
+    genShamirSecretShareInto r x sp recv₁ = genShamirSecretShareInto r x sp recv₂ ∧
+    genShamirSecretShareInto r x sp recv₁ = genShamirSecretShare r x sp :=
+  ⟨by rw [genShamirSecretShareInto_eq r N x sp hsh recv₁ h₁, genShamirSecretShareInto_eq r N x sp hsh recv₂ h₂],
+   genShamirSecretShareInto_eq r N x sp hsh recv₁ h₁⟩
+
+/-- contrast (test by evaluation): the Horner loop of the seeded regression C15-r3m1, which starts
+from the receiver's content instead of copying the leading coefficient, does depend on it. -/
+example : evalPolyScalarNoCopy [97] 3 [[[5]], [[7]]] [[0]] = [[26]] ∧
+    evalPolyScalarNoCopy [97] 3 [[[5]], [[7]]] [[1]] = [[35]] ∧
+    evalPolyScalarInto [97] 3 [[[5]], [[7]]] [[1]] = some [[26]] := by decide
 
 /-! ## the excluded points -/
 
@@ -430,6 +592,20 @@ example : genAdditiveShare (newCombiner exRing 4 [4, 101] 2) [101, 4] 4 ⟨2, [[
 example : genAdditiveShare (newCombiner exRing 4 [4, 101] 2) [7, 101] 4 ⟨2, [[1, 2], [3, 4], [5, 6]]⟩ = .panic := by
   decide
 
+/-- `refused_iff_collision` / `accepted_iff_distinct`: both sides of each iff occur. -/
+example : genAdditiveShare (newCombiner exRing 4 [4, 101] 2) [101, 4] 4 ⟨2, [[1, 2], [3, 4], [5, 6]]⟩ = .err :=
+  (refused_iff_collision exRing 2 4 [4, 101] [101, 4] _ (by decide) (by decide)).mpr
+    ⟨101, by decide, by decide, 97, by decide, by decide⟩
+
+example : ∃ s, genAdditiveShare (newCombiner exRing 4 [4, 9, 11] 3) [9, 4, 11] 4 ⟨2, [[1, 2], [3, 4], [5, 6]]⟩ = .ok s :=
+  (accepted_iff_distinct exRing 3 4 [4, 9, 11] [9, 4, 11] _ (by decide) (by decide)).mpr (by decide)
+
+/-- `run_refused_iff_collision`: the refused run of above, through the iff. -/
+example : thresholdRun exRing 2 (zeroQP exRing 2) exDealers
+    [⟨4, [4, 101], [101, 4]⟩, ⟨101, [4, 101], [4, 101]⟩] = .err :=
+  (run_refused_iff_collision exRing 2 2 exDealers _ exRing_prime (by decide) exShaped
+    (by decide) (by decide) (by decide) (by decide)).1.mpr (by decide)
+
 example : genAdditiveShare (newCombiner exRing 4 [4, 9, 11] 3) [9, 4] 4 ⟨2, [[1, 2], [3, 4], [5, 6]]⟩ = .err :=
   too_few_err _ _ _ _ (by decide)
 
@@ -437,6 +613,10 @@ example : genAdditiveShare (newCombiner exRing 4 [4, 9, 11] 3) [9, 4] 4 ⟨2, [[
 example : aggregateAll exRing (zeroQP exRing 2) [⟨2, [[5, 6], [7, 8], [9, 10]]⟩, ⟨2, [[96, 0], [192, 1], [256, 2]]⟩] =
     aggregateAll exRing (zeroQP exRing 2) [⟨2, [[96, 0], [192, 1], [256, 2]]⟩, ⟨2, [[5, 6], [7, 8], [9, 10]]⟩] :=
   setup_aggregation_order_indep exRing 2 _ _ (by decide) (by decide)
+
+/-- `share_receiver_independent`: a junk receiver and the previous recipient's share. -/
+example := share_receiver_independent exRing 2 193 exDealer0 (by decide)
+  ⟨2, [[96, 1], [2, 3], [4, 5]]⟩ ⟨2, [[4, 4], [7, 8], [203, 140]]⟩ (by decide) (by decide)
 
 /-- `zero_point_share_is_secret`: the non-zero point `193` gets row 1 of the secret. -/
 example : genShamirSecretShare exRing 193 exDealer0 = .ok ⟨2, [[4, 4], [7, 8], [203, 140]]⟩ := by decide
@@ -458,6 +638,13 @@ end Lattigo.Props.C15
 #print axioms Lattigo.Props.C15.order_indep_ok
 #print axioms Lattigo.Props.C15.collision_rejected
 #print axioms Lattigo.Props.C15.collision_never_ok
+#print axioms Lattigo.Props.C15.run_refused_of_collision
+#print axioms Lattigo.Props.C15.run_refused_iff_collision
+#print axioms Lattigo.Props.C15.pointsCollide_iff
+#print axioms Lattigo.Props.C15.refused_iff_collision
+#print axioms Lattigo.Props.C15.accepted_iff_distinct
 #print axioms Lattigo.Props.C15.setup_aggregation_order_indep
+#print axioms Lattigo.Props.C15.evalPolyScalar_receiver_independent
+#print axioms Lattigo.Props.C15.share_receiver_independent
 #print axioms Lattigo.Props.C15.zero_point_share_is_secret
 #print axioms Lattigo.Props.C15.collision_example
